@@ -7,6 +7,7 @@ import (
 	"image"
 	"math"
 	"os"
+	"regexp"
 	"sort"
 	"strconv"
 	"strings"
@@ -45,6 +46,7 @@ type c12Prim struct {
 	col     [4]float64 // non-premultiplied r g b (0..255), alpha 0..1 in col[3]
 	grad    bool
 	axis    []float64 // linear gradient: start and end of the gradient vector in canvas space
+	corners []Pt      // image: where its bottom-left, bottom-right, top-right and top-left corners land
 	pieces  [][]Pt    // dashes of the stroke as open polylines (or the whole sub-paths when not dashed)
 	closed  []bool
 	boxes   []geom.Box
@@ -365,6 +367,8 @@ type c12Draw struct {
 	DashOff float64
 	JoinX   int // 0 miter(4) 1 bevel 2 round 3 arcs 4 miter-clip 5 miter limit 2
 	SGrad   bool
+	Img     []int   `json:",omitempty"` // an image of this many pixels is drawn instead of the path
+	Res     float64 `json:",omitempty"` // its resolution in px/mm
 }
 
 type c12Case struct {
@@ -469,6 +473,11 @@ func genC12(kind string) func(r *core.Rng) any {
 						x.Stroke[3] = 255
 					}
 				}
+				if (kind == "mixed" || kind == "ps" || kind == "similar") && r.Chance(0.15) {
+					x.Img = []int{r.IntRange(2, 7), r.IntRange(2, 7)}
+					x.Res = core.PickF(r, []float64{0.5, 1, 2, r.Range(0.3, 3)})
+					x.Stroke, x.Fill = nil, nil
+				}
 				if x.Stroke != nil && x.Shape == "selfx" && kind != "selfx-stroke" {
 					// strokes of closed self-crossing contours lose lobes in Path.Stroke (finding F-C04-closed-selfx),
 					// which the rasterizer and the fall-back outlines inherit: stratum selfx-stroke only
@@ -552,6 +561,17 @@ func c12Canvas(c *c12Case) *canvas.Canvas {
 			ctx.SetDashes(d.DashOff, d.Dashes...)
 		}
 		ctx.SetFillRule(canvas.FillRule(d.Rule))
+		if d.Img != nil {
+			img := image.NewRGBA(image.Rect(0, 0, d.Img[0], d.Img[1]))
+			for i := range img.Pix {
+				img.Pix[i] = uint8(40 + 13*i)
+				if i%4 == 3 {
+					img.Pix[i] = 255
+				}
+			}
+			ctx.DrawImage(d.X, d.Y, img, canvas.DPMM(d.Res))
+			continue
+		}
 		ctx.DrawPath(d.X, d.Y, pathFrom(d.Data))
 	}
 	return cv
@@ -663,6 +683,21 @@ func readSVG(data []byte, eps float64) ([]c12Prim, error) {
 				}
 				gradAxes[attr["id"]] = []float64{v[0] * scaleX, H - v[1]*scaleY, v[2] * scaleX, H - v[3]*scaleY}
 			}
+		case "image":
+			w, e1 := strconv.ParseFloat(attr["width"], 64)
+			h, e2 := strconv.ParseFloat(attr["height"], 64)
+			t, e3 := parseTransformList(attr["transform"])
+			if e1 != nil || e2 != nil || e3 != nil {
+				return nil, fmt.Errorf("image element: width %q height %q transform %q", attr["width"], attr["height"], attr["transform"])
+			}
+			x0, _ := strconv.ParseFloat(attr["x"], 64)
+			y0, _ := strconv.ParseFloat(attr["y"], 64)
+			cv := func(x, y float64) Pt {
+				q := t.dot(Pt{X: x0 + x, Y: y0 + y})
+				return Pt{X: q.X * scaleX, Y: H - q.Y*scaleY}
+			}
+			// the image hangs down from its origin in the y-down user space: bottom-left is (0,h)
+			prims = append(prims, c12ImagePrim([]Pt{cv(0, h), cv(w, h), cv(w, 0), cv(0, 0)}))
 		case "path":
 			if _, has := attr["transform"]; has {
 				return nil, fmt.Errorf("path with a transform attribute is not read")
@@ -876,7 +911,30 @@ func readPDF(data []byte, epsPt float64) ([]c12Prim, float64, float64, error) {
 				b.open = false
 			}
 		case "re":
-			return nil, 0, 0, fmt.Errorf("re is not read")
+			x, y, w, h := num(a[0]), num(a[1]), num(a[2]), num(a[3])
+			p0 := gs.ctm.dot(Pt{X: x, Y: y})
+			sub := geom.Sub{Start: p0, Closed: true}
+			prev := p0
+			for _, c := range []Pt{{X: x + w, Y: y}, {X: x + w, Y: y + h}, {X: x, Y: y + h}, {X: x, Y: y}} {
+				q := gs.ctm.dot(c)
+				sub.Segs = append(sub.Segs, geom.Seg{Kind: geom.Line, P0: prev, P3: q})
+				prev = q
+			}
+			b.subs = append(b.subs, sub)
+			b.cur, b.start, b.open = p0, p0, false
+		case "W", "W*":
+			// clipping path: the renderer clips images to their own parallelogram, nothing is hidden
+		case "Do":
+			xo, _ := f.Resolve(pg.Resources["XObject"]).(refpdf.Dict)
+			st, _ := f.Resolve(xo[a[0].(refpdf.Name)]).(*refpdf.Stream)
+			if st == nil || st.Dict["Subtype"] != refpdf.Name("Image") {
+				return nil, 0, 0, fmt.Errorf("Do of something that is not an image")
+			}
+			cs := []Pt{gs.ctm.dot(Pt{X: 0, Y: 0}), gs.ctm.dot(Pt{X: 1, Y: 0}), gs.ctm.dot(Pt{X: 1, Y: 1}), gs.ctm.dot(Pt{X: 0, Y: 1})}
+			for i := range cs {
+				cs[i] = toMM(cs[i])
+			}
+			prims = append(prims, c12ImagePrim(cs))
 		case "f", "F":
 			paint(true, false, 0, false)
 		case "f*":
@@ -955,8 +1013,18 @@ func readPDF(data []byte, epsPt float64) ([]c12Prim, float64, float64, error) {
 
 // ---- PostScript interpreter ----------------------------------------------------------------------
 
+var c12PSImageRe = regexp.MustCompile(`(?s)<</ImageType 1 /BitsPerComponent 8 /Decode \[0 1 0 1 0 1\] /Interpolate true /Width (\d+) /Height (\d+) /ImageMatrix \[(\d+) 0 0 -(\d+) 0 (\d+)\] /DataSource currentfile /ASCII85Decode filter /FlateDecode filter>>image\n.*?~>`)
+
 func readPS(data []byte, eps float64) ([]c12Prim, float64, float64, error) {
-	src := string(data)
+	// an image is a dictionary followed by in-line data; its ImageMatrix [w 0 0 -h 0 h] maps the unit
+	// square of user space onto the image with the first row on top
+	src := c12PSImageRe.ReplaceAllStringFunc(string(data), func(m string) string {
+		g := c12PSImageRe.FindStringSubmatch(m)
+		if g[1] != g[3] || g[2] != g[4] || g[2] != g[5] {
+			return " BADIMAGE "
+		}
+		return " IMAGE "
+	})
 	W, H := 0.0, 0.0
 	var body []string
 	for _, ln := range strings.Split(src, "\n") {
@@ -975,7 +1043,11 @@ func readPS(data []byte, eps float64) ([]c12Prim, float64, float64, error) {
 			if !strings.Contains(ln, "x y translate rot rotate rx ry scale 0 0 1 a0 a1 arc") {
 				return nil, 0, 0, fmt.Errorf("unexpected definition of ellipse: %s", ln)
 			}
-			continue
+			k := strings.Index(ln, "}def")
+			if k < 0 {
+				return nil, 0, 0, fmt.Errorf("unterminated definition: %s", ln)
+			}
+			ln = ln[k+4:] // the program continues on the same line
 		}
 		body = append(body, ln)
 	}
@@ -988,8 +1060,9 @@ func readPS(data []byte, eps float64) ([]c12Prim, float64, float64, error) {
 		dashes    []float64
 		dashOff   float64
 		path      []string
+		ctm       aff
 	}
-	gs := state{col: [4]float64{0, 0, 0, 1}, w: 1, limit: 10}
+	gs := state{col: [4]float64{0, 0, 0, 1}, w: 1, limit: 10, ctm: affI}
 	var stack []state
 	var nums []float64
 	var arr []float64
@@ -1033,6 +1106,9 @@ func readPS(data []byte, eps float64) ([]c12Prim, float64, float64, error) {
 			}
 			continue
 		}
+		if strings.HasPrefix(t, "/") {
+			continue // a literal name (operand of setcolorspace)
+		}
 		if n, ok := pathOps[t]; ok {
 			if len(nums) != n {
 				return nil, 0, 0, fmt.Errorf("%s with %d operands", t, len(nums))
@@ -1056,6 +1132,14 @@ func readPS(data []byte, eps float64) ([]c12Prim, float64, float64, error) {
 			inArr, arr = true, nil
 		case "]":
 			inArr = false
+		case "setcolorspace":
+		case "concat":
+			if len(arr) != 6 {
+				return nil, 0, 0, fmt.Errorf("concat with %d numbers", len(arr))
+			}
+			gs.ctm = gs.ctm.mul(aff{arr[0], arr[2], arr[4], arr[1], arr[3], arr[5]})
+		case "IMAGE":
+			prims = append(prims, c12ImagePrim([]Pt{gs.ctm.dot(Pt{X: 0, Y: 0}), gs.ctm.dot(Pt{X: 1, Y: 0}), gs.ctm.dot(Pt{X: 1, Y: 1}), gs.ctm.dot(Pt{X: 0, Y: 1})}))
 		case "gsave":
 			st := gs
 			st.path = append([]string(nil), gs.path...)
@@ -1234,6 +1318,35 @@ func c12Check(ci any, o *core.Obs) {
 		modelSVG[k].prepare()
 		modelSVG[k].makeBoxes()
 	}
+	// images, in the order of appearance: the four corners must land where DrawImage puts them
+	for _, bk := range backs {
+		var mi, bi [][]Pt
+		mdl := model
+		for _, pr := range mdl {
+			if pr.corners != nil {
+				mi = append(mi, pr.corners)
+			}
+		}
+		for _, pr := range bk.prims {
+			if pr.corners != nil {
+				bi = append(bi, pr.corners)
+			}
+		}
+		o.Decided(1)
+		if len(mi) != len(bi) {
+			o.Fail(bk.name+"-image", "the drawing has %d images, the %s output %d; %s", len(mi), bk.name, len(bi), c12Str(c))
+			return
+		}
+		for i := range mi {
+			for k := 0; k < 4; k++ {
+				if mi[i][k].Dist(bi[i][k]) > 1e-4*(c.W+c.H) {
+					o.Fail(bk.name+"-image", "image %d: its corner %d (0 bottom-left, 1 bottom-right, 2 top-right, 3 top-left) lands at %v in the %s output, DrawImage puts it at %v; %s", i, k, bi[i][k], bk.name, mi[i][k], c12Str(c))
+					return
+				}
+			}
+			o.Count("image_placements_compared_"+bk.name, 1)
+		}
+	}
 	// gradient vectors, in the order of appearance
 	for _, bk := range backs {
 		if bk.name == "ps" {
@@ -1241,12 +1354,12 @@ func c12Check(ci any, o *core.Obs) {
 		}
 		var ma, ba [][]float64
 		for _, pr := range model {
-			if pr.grad {
+			if pr.grad && pr.corners == nil {
 				ma = append(ma, pr.axis)
 			}
 		}
 		for _, pr := range bk.prims {
-			if pr.grad {
+			if pr.grad && pr.corners == nil {
 				ba = append(ba, pr.axis)
 			}
 		}
@@ -1449,6 +1562,15 @@ func c12Check(ci any, o *core.Obs) {
 	o.Count("points_where_the_rasterizer_differs_on_coverage", float64(rasterDiffer))
 }
 
+// c12ImagePrim: an image paints its parallelogram with colours that are not judged.
+func c12ImagePrim(corners []Pt) c12Prim {
+	poly := geom.Poly{Closed: true}
+	for _, p := range append(append([]Pt{}, corners...), corners[0]) {
+		poly.V = append(poly.V, geom.Vertex{P: p})
+	}
+	return c12Prim{fill: []geom.Poly{poly}, grad: true, corners: corners}
+}
+
 // c12Model builds the primitives the recorded drawing prescribes.
 func c12Model(c *c12Case, eps float64, o *core.Obs, arcsNative bool) ([]c12Prim, bool) {
 	ds := make([]*c12Draw, len(c.Draws))
@@ -1465,6 +1587,19 @@ func c12Model(c *c12Case, eps float64, o *core.Obs, arcsNative bool) ([]c12Prim,
 			view = affAbout(v, d.X, d.Y)
 		}
 		m := sysView(c.Sys, c.W, c.H).mul(view).mul(affT(d.X, d.Y))
+		if d.Img != nil {
+			// DrawImage: one image pixel measures 1/res mm; the image stays upright in flipped systems
+			w, h := float64(d.Img[0]), float64(d.Img[1])
+			mi := m.mul(affS(1/d.Res, 1/d.Res))
+			if c.Sys == 2 || c.Sys == 3 {
+				mi = mi.mul(affAbout(affS(1, -1), 0, h/2))
+			}
+			if c.Sys == 1 || c.Sys == 2 {
+				mi = mi.mul(affAbout(affS(-1, 1), w/2, 0))
+			}
+			prims = append(prims, c12ImagePrim([]Pt{mi.dot(Pt{X: 0, Y: 0}), mi.dot(Pt{X: w, Y: 0}), mi.dot(Pt{X: w, Y: h}), mi.dot(Pt{X: 0, Y: h})}))
+			continue
+		}
 		subs, err := geom.Decode(d.Data)
 		if err != nil {
 			o.Skip("generated path does not decode")
@@ -1564,6 +1699,10 @@ func c12Str(c *c12Case) string {
 	ds := append([]c12Draw(nil), c.Draws...)
 	sort.SliceStable(ds, func(i, j int) bool { return ds[i].Z < ds[j].Z })
 	for _, d := range ds {
+		if d.Img != nil {
+			s += fmt.Sprintf(" [image %dx%d px at %.4g px/mm at (%.6g,%.6g) view %v z %d]", d.Img[0], d.Img[1], d.Res, d.X, d.Y, d.View, d.Z)
+			continue
+		}
 		s += fmt.Sprintf(" [%s at (%.6g,%.6g) view %v fill %v grad %v stroke %v w %.4g cap %d join %d dashes %v offset %.4g rule %d z %d]", dstr(d.Data), d.X, d.Y, d.View, d.Fill, d.Grad, d.Stroke, d.Width, d.Cap, d.JoinX, d.Dashes, d.DashOff, d.Rule, d.Z)
 	}
 	return s
@@ -1576,7 +1715,7 @@ func init() {
 		ID:    "C12",
 		Title: "SVG, PDF and PostScript output encode the drawing the rasterizer renders",
 		Rule: "drawings of 1-3 styled paths (C14's shapes; opaque/translucent fills, linear gradients, strokes of 3 caps x {miter 4, miter 2, bevel, round, arcs, miter-clip}, dashes with offsets and zero entries, NonZero/EvenOdd, similarity and non-similarity views, four coordinate systems, z-indices) are rendered to SVG, PDF (compressed or not), PostScript/EPS and with the rasterizer; the vector outputs are interpreted by independent readers into painted primitives in canvas space (fills by exact winding numbers of an independent flattening; native strokes as distance bands around the dashes of the centre line, decided inside hw-1.5px, outside limit*hw+1.5px); " +
-			"at 120 uniform pixels plus 30 per contour the colour each output prescribes (source-over) is compared with the rasterizer's pixel (4 levels); page sizes; PostScript is compared for opaque, gradient-free drawings only (documented limits of that back-end)",
+			"at 120 uniform pixels plus 30 per contour the colour each output prescribes (source-over) is compared with the rasterizer's pixel (4 levels); page sizes; linear gradient vectors (SVG, PDF) and the four corners of every image (all three outputs) are compared with where DrawImage/the gradient definition put them; PostScript is compared for opaque, gradient-free drawings only (documented limits of that back-end)",
 		Strata: []core.Stratum{
 			{Name: "mixed", Quick: 400, Thorough: 12000, Gen: genC12("mixed")},
 			{Name: "similar", Quick: 300, Thorough: 8000, Gen: genC12("similar")},
@@ -1591,7 +1730,7 @@ func init() {
 		Assumptions: []string{
 			"the interpreters implement SVG 1.1 painting (path grammar, presentation attributes and style declarations, userSpaceOnUse gradients as 'painted, colour not judged'), PDF 32000-1 graphics state and path painting operators, and the PostScript operators the renderer emits (its ellipse procedures via harness/refsyn)",
 			"the rasterizer image is the reference the property names; its own agreement with the analytic region is C14",
-			"text and images are not part of these drawings",
+			"text is not part of these drawings; images are compared by placement (corner positions, order), not by pixel content",
 		},
 	})
 }
